@@ -1,1 +1,2 @@
 pub mod proof_graph;
+pub mod modules;
